@@ -267,9 +267,14 @@ class CFG:
         return b not in self.reachable(self.entry, avoid=set(through))
 
     def loop_body(self, head: int) -> Set[int]:
-        """Nodes of one iteration: reachable from the loop head's body edge without re-entering the head."""
-        first = [b for b, lab in self.succ[head] if lab == "true"]
-        return self.reachable(first, avoid={head}, labels_avoid={"exc"}, include_src=True)
+        """CFG nodes of the loop body: nodes whose statement lies syntactically inside the loop's body block
+        (copies of finally blocks included)."""
+        loop = self.nodes[head].stmt
+        inside = set()
+        for st in loop.body:
+            for x in ast.walk(st):
+                inside.add(id(x))
+        return {n.id for n in self.nodes if n.stmt is not None and id(n.stmt) in inside and n.id != head}
 
     def loop_exit_succ(self, head: int) -> List[int]:
         return [b for b, lab in self.succ[head] if lab == "false"]
